@@ -42,6 +42,9 @@ package client
 //@   requires aligned: grp != nil && grp.req != nil && len(grp.req.RequestIds) == len(grp.entries)
 //@   loop 1 invariant l1: true
 //@   loop 2 invariant l2: grp.req == old(grp.req) && grp.entries == old(grp.entries) && grp.req.RequestIds == old(grp.req.RequestIds)
+//@   loop 2 invariant reg: -1 <= rangeindex && rangeindex < len(grp.req.RequestIds) && ref(c.batched).puts == old(ref(c.batched).puts) + rangeindex + 1
+// ... and all of them are registered BEFORE the batch goes onto the stream (a response can arrive before Send returns)
+//@   at call(Send) assert registered: ref(c.batched).puts == old(ref(c.batched).puts) + len(grp.req.RequestIds)
 //@   at call(Store#3) assert own: exists j int :: 0 <= j && j < old(len(grp.req.RequestIds)) && j < old(len(grp.entries)) && mathint(old(grp.req.RequestIds[j])) == mathint(arg_key.(uint64)) && arg_value.(*batchCommandsEntry) == old(grp.entries[j])
 
 // Failing one request removes exactly its id from the pending map and hands the error to its entry.
